@@ -46,7 +46,7 @@ def aOps (s : State) : Act → List Beetswap.Client.Op
   | .refresh => [.tick sendFullInterval]
   | .drainA =>
     [.drain (Node.prefOf []), .takeNewBlocks] ++
-      (if (Node.step s.a (.drain [] [])).2.1.any isSend then [.sending 1 (.sending 1)] else [])
+      (if (Node.step s.a (.drain [] [])).2.1.any isSend then [.sending 1 1 (.sending 1)] else [])
   | .drainB => []
   | .lookupA seq => if s.callsA.any (·.1 == seq) then [.complete seq .miss] else []
   | .putDoneA seq => if seq ∈ s.putsA then [.complete seq .putOk] else []
@@ -54,7 +54,7 @@ def aOps (s : State) : Act → List Beetswap.Client.Op
   | .deliverAB =>
     match s.wireAB with
     | [] => []
-    | _ :: _ => [.sending 1 .ready]
+    | _ :: _ => [.sending 1 1 .ready]
   | .deliverBA =>
     match s.wireBA with
     | [] => []
@@ -141,6 +141,8 @@ structure AInv (g : GS) : Prop where
   wire : ((apeer g.s).sending = .ready ∧ g.s.wireAB = []) ∨
     ((apeer g.s).sending = .sending 1 ∧ ∃ m, g.s.wireAB = [m])
   reqvals : ∀ (k : Nat) (r : Req), (apeer g.s).wl.req[k]? = some r → r = Req.sentWantHave ∨ r = Req.gotBlock
+  /-- the one connection between the two nodes is connection 1 -/
+  conn1 : ∀ x : Nat, x ∈ (apeer g.s).conns ↔ x = 1
   deadline : g.s.a.client.deadline ≤ g.s.a.now + sendFullInterval
   no_hit : ∀ t ∈ g.s.a.client.tasks, ∀ d, t.st ≠ TaskSt.done (StoreRes.hit d)
   queue_ok : ∀ q d, Out.resp q d ∈ g.s.a.client.queue → ∃ k : Nat, g.s.storeB[k]? = some d
